@@ -187,6 +187,25 @@ impl AcquisitionLedger {
         }
     }
 
+    /// Rescale every lot's share counts by `numerator / denominator` after a split or
+    /// unsplit, so that later disposals (quoted in post-split units) consume the right
+    /// fraction of each lot. Each lot's total cost is unchanged.
+    pub fn rescale_quantities(&mut self, numerator: Decimal, denominator: Decimal) {
+        if numerator == Decimal::ZERO || denominator == Decimal::ZERO {
+            return;
+        }
+        for lot in &mut self.lots {
+            // Fold the purchase consideration into `expenses` so the lot's base cost
+            // stays exactly what was paid whatever the new share count is.
+            lot.expenses = lot.base_cost();
+            lot.price = Decimal::ZERO;
+            lot.original_amount = lot.original_amount * numerator / denominator;
+            lot.consumed = lot.consumed * numerator / denominator;
+            lot.reserved = lot.reserved * numerator / denominator;
+            lot.in_pool = lot.in_pool * numerator / denominator;
+        }
+    }
+
     /// Total adjusted cost across all lots with remaining shares.
     pub fn total_adjusted_cost(&self) -> Decimal {
         self.lots
